@@ -26,6 +26,7 @@ from harness import muxcheck as MC  # noqa: E402
 PROP = 'C01'
 I = M.I
 fn = M.fn
+NONE = M.NONE
 MUX_ONLY = ('distinct', 'lag', 'pad_start', 'pad_end', 'start_with', 'ignore', 'errmap', 'router')
 COMPLETION = ('last', 'to_list', 'to_array', 'batch')
 UNMODELED = ('variance', 'stddev', 'fvariance', 'fstddev')
@@ -285,6 +286,22 @@ def main(tier, replay):
         sched_seed = rng.randint(0, 10**9)
         tr, gs = pair_direct(random.Random(sched_seed), pipe, groups)
         traces.append({'pipe': pipe, 'modeled': True, 'oracle': 'pair',
+                       'groups': [{k: g[k] for k in g if k != 'errtype'} for g in gs]})
+        mux_traces.append(tr)
+        meta.append({'mode': 'direct', 'groups': groups, 'sched_seed': sched_seed})
+    # dedicated: None as an item (a legitimate value that state slots must be able to hold)
+    for _ in range(200 if thorough else 60):
+        tailop = rng.choice([G.op_simple('duc', f=fn('id')), G.op_simple('last'), G.op_simple('last'),
+                             G.op_simple('last'), G.op_simple('first'),
+                             G.op_simple('take', n=2), G.op_simple('to_list'), {'op': 'count', 'reduce': True},
+                             G.op_simple('batch', n=2), G.op_scan('last', NONE, seedfactory=True)])
+        pipe = [G.op_map('noneIf', rng.choice([0, 1, 2]))] + \
+            ([G.op_simple('duc', f=fn('id'))] if rng.random() < 0.4 else []) + [tailop]
+        groups = [(idx, G.ints([rng.randint(0, 2) for _ in range(rng.randint(1, 4))]))
+                  for idx in rng.sample([0, 1, 3], rng.choice([2, 3]))]
+        sched_seed = rng.randint(0, 10**9)
+        tr, gs = pair_direct(random.Random(sched_seed), pipe, groups)
+        traces.append({'pipe': pipe, 'modeled': modeled(pipe), 'oracle': 'pair',
                        'groups': [{k: g[k] for k in g if k != 'errtype'} for g in gs]})
         mux_traces.append(tr)
         meta.append({'mode': 'direct', 'groups': groups, 'sched_seed': sched_seed})
